@@ -281,6 +281,90 @@ func valueOf(files map[string]*ast.File, name string) string {
 	return "?missing"
 }
 
+// valueExprOf is valueOf as a syntax tree (nil when the name has no initialiser in the package)
+func valueExprOf(files map[string]*ast.File, name string) ast.Expr {
+	for _, f := range files {
+		for _, d := range f.Decls {
+			gd, ok := d.(*ast.GenDecl)
+			if !ok {
+				continue
+			}
+			for _, sp := range gd.Specs {
+				vs, ok := sp.(*ast.ValueSpec)
+				if !ok {
+					continue
+				}
+				for i, n := range vs.Names {
+					if n.Name == name && i < len(vs.Values) {
+						return vs.Values[i]
+					}
+				}
+			}
+		}
+	}
+	return nil
+}
+
+// intConstExpr evaluates an integer constant expression of a package: literals in any base, parentheses, other constants
+// of the package by name, unary minus and + - * << >> | & on such. Spelling a constant differently (0xFF for 255) is not
+// a change; anything else (calls, conversions, iota) is not understood.
+func intConstExpr(files map[string]*ast.File, e ast.Expr, depth int) (int64, bool) {
+	if depth > 8 || e == nil {
+		return 0, false
+	}
+	switch t := e.(type) {
+	case *ast.BasicLit:
+		if t.Kind != token.INT {
+			return 0, false
+		}
+		v, err := strconv.ParseInt(strings.ReplaceAll(t.Value, "_", ""), 0, 64)
+		return v, err == nil
+	case *ast.ParenExpr:
+		return intConstExpr(files, t.X, depth+1)
+	case *ast.Ident:
+		return intConstExpr(files, valueExprOf(files, t.Name), depth+1)
+	case *ast.UnaryExpr:
+		v, ok := intConstExpr(files, t.X, depth+1)
+		if !ok {
+			return 0, false
+		}
+		switch t.Op {
+		case token.SUB:
+			return -v, true
+		case token.ADD:
+			return v, true
+		}
+		return 0, false
+	case *ast.BinaryExpr:
+		x, ok1 := intConstExpr(files, t.X, depth+1)
+		y, ok2 := intConstExpr(files, t.Y, depth+1)
+		if !ok1 || !ok2 {
+			return 0, false
+		}
+		switch t.Op {
+		case token.ADD:
+			return x + y, true
+		case token.SUB:
+			return x - y, true
+		case token.MUL:
+			return x * y, true
+		case token.OR:
+			return x | y, true
+		case token.AND:
+			return x & y, true
+		case token.SHL:
+			if y >= 0 && y < 62 {
+				return x << uint(y), true
+			}
+		case token.SHR:
+			if y >= 0 && y < 64 {
+				return x >> uint(y), true
+			}
+		}
+	}
+	return 0, false
+}
+
 func bodyOf(fns map[string]*ast.FuncDecl, name string) string {
 	if fd, ok := fns[name]; ok {
 		return src(fd.Body)
